@@ -735,7 +735,8 @@ struct In {
 static uint64_t g_forks = 0;
 static int g_last_status = 0;           // wait status of the last child
 static std::string death(int st) {      // how a child ended, for reports
-    if (WIFSIGNALED(st)) return WTERMSIG(st) == SIGALRM ? "hang" : "crash:signal" + str(WTERMSIG(st));
+    if (WIFSIGNALED(st)) return WTERMSIG(st) == SIGALRM ? "hang" : "crash";
+    if (WIFEXITED(st) && WEXITSTATUS(st) == 1) return "crash";     // the sanitizer-coverage runtime turns SIGSEGV into exit(1)
     if (WIFEXITED(st) && WEXITSTATUS(st)) return "exit" + str(WEXITSTATUS(st));
     return "bad-output";
 }
@@ -1078,10 +1079,17 @@ static ExploreStats explore(const std::vector<int>& wls, const std::vector<uintp
     level[0].push_back(std::vector<Dec>());
     std::set<std::string> confirmed;      // signatures whose first failing schedule was replayed twice
     bool have_race = false, have_div = false;
+    uint64_t since_first_failure = 0;
+    double t_first_failure = 0;
     for (int b = 0; b <= bound; ++b) {
         while (!level[b].empty()) {
             if (deadline_reached() || st.schedules >= cap) { st.exhaustive = false; return st; }
             if (stop_when_both && have_race && have_div) { st.exhaustive = false; return st; }
+            // a set that already failed is a violation: look a little further (for a divergence next to the race), then stop
+            if (stop_when_both && st.failing) {
+                if (!since_first_failure) t_first_failure = now();
+                if (++since_first_failure > 100 || now() - t_first_failure > 15) { st.exhaustive = false; return st; }
+            }
             std::vector<Dec> pre = level[b].front();
             level[b].pop_front();
             SchedResult r = run_schedule(wls, conf, pre);
@@ -1091,7 +1099,7 @@ static ExploreStats explore(const std::vector<int>& wls, const std::vector<uintp
                 // or (bad_replay) the execution did not offer the recorded decision: neither can happen on a race-free tree
                 std::string how = r.ok ? "schedule-not-followed" : r.how;
                 st.failing++;
-                if (report) R.violation("sched:" + how + ":" + wl_names(wls), "the threads did not complete under this schedule (" + how + ")",
+                if (report) R.violation("sched:" + how + "-under-schedule", "the threads of " + wl_names(wls) + " did not complete under this schedule (" + how + ")",
                                         "stage=2 scale=" + str(g_scale) + " wl=" + wl_names(wls) + " sched=" + sched_str(pre));
                 else R.count("canary_schedule_failures");
                 st.exhaustive = false;
